@@ -273,6 +273,41 @@ def default_sig(d: str) -> Optional[str]:
     return c15.signature(dnode, dv[0]) if dv else None
 
 
+OV_STACKS = [('@overload', ''), ('@overload\n    @staticmethod', 'static'), ('@staticmethod\n    @overload', 'static'), ('@overload\n    @classmethod', 'cls'), ('@classmethod\n    @overload', 'cls'),
+             ('@overload\n    @deco', ''), ('@deco\n    @overload', ''), ('@typing.overload', ''), ('@t.overload\n    @deco(1)', ''), ('@overload\n    @deco\n    @staticmethod', 'static')]
+
+
+def run_overload_stacks(res: Dict[str, Any]) -> None:
+    """overloads of methods under every decorator stack: each written overload signature is displayed, the implementation's is not"""
+    from pydoctor.templatewriter.pages import format_function_def
+    sigs = [('x: int', ' -> int'), ('x: str, *, flag: bool = ...', ' -> str')]
+    L = ['import typing\nimport typing as t\nfrom typing import overload\ndef deco(*a):\n    return a[0] if a and callable(a[0]) else (lambda f: f)\nclass K:']
+    for i, (stack, kind) in enumerate(OV_STACKS):
+        first = {'': 'self, ', 'static': '', 'cls': 'cls, '}[kind]
+        for sg, ret in sigs:
+            L.append(f'    {stack}\n    def m{i}({first}{sg}){ret}: ...')
+        impl_deco = {'': '', 'static': '    @staticmethod\n', 'cls': '    @classmethod\n'}[kind]
+        L.append(f'{impl_deco}    def m{i}({first}x, **kw): pass')
+    s = pd.build_mem([pd.Mod('m', '\n'.join(L) + '\n')])
+    for i, (stack, kind) in enumerate(OV_STACKS):
+        fn = s.allobjects[f'm.K.m{i}']
+        res['evals'] += 1
+        res['nontrivial_count'] += 1
+        label = stack.replace('\n    ', '+').replace('@', '')
+        case = {'kind': 'ovstack', 'i': i}
+        first = {'': 'self, ', 'static': '', 'cls': 'cls, '}[kind]
+        if len(fn.overloads) != len(sigs):
+            res['violations'].append(core.violation(f'overload-stacks/count/{label}', f'{len(fn.overloads)} overloads recorded for {len(sigs)} written under {stack!r}', case))
+            continue
+        for ov, (sg, ret) in zip(fn.overloads, sigs):
+            line = text_of(format_function_def(fn.name, fn.is_async, ov))
+            pre = f'def m{i}'
+            before = len(res['violations'])
+            compare(first + sg, ret, line[len(pre):].rstrip()[:-1], 'overload-stacks', case, res)
+            for v in res['violations'][before:]:
+                v['sig'] += '/' + label
+
+
 def run_exprs(di: int, res: Dict[str, Any]) -> None:
     from pydoctor.templatewriter.pages import format_signature
     d = DEFAULTS[di]
@@ -348,6 +383,7 @@ def jobs(tier: str) -> Iterable[Tuple[str, Any]]:
         yield ('exprs', ('exprs', di))
     for pi in range(len(c15.FORMS)):
         yield ('depth2-exprs', ('depth2', pi))
+    yield ('overload-decorator-stacks', ('ovstacks',))
     if tier == 'thorough':
         for k in KINDS:
             for d in (0, 1):
@@ -388,11 +424,16 @@ def run_job(job: Any, tier: str) -> Dict[str, Any]:
         run_exprs(job[1], res)
     elif job[0] == 'depth2':
         run_depth2(job[1], res)
+    elif job[0] == 'ovstacks':
+        run_overload_stacks(res)
     return res
 
 
 def replay(case: Dict[str, Any]) -> List[Dict[str, Any]]:
     res = core.result()
+    if case['kind'] == 'ovstack':
+        run_overload_stacks(res)
+        return [v for v in res['violations'] if v['case'] == case]
     if case['kind'] == 'layout':
         run_layouts([case['sig']], case['ctx'], case['ret'], 0, res)
     elif case['kind'] == 'overloads':
